@@ -44,6 +44,11 @@ def run_one(patch, prop, tier, extra_env=None):
 ALSO = {
     'seeded/C21-adv1': ['C38'], 'seeded/C21-adv2': ['C38'], 'seeded/C01-adv2': ['C29'], 'seeded/C24-adv2': ['C40'],
     'seeded/C36-adv1': ['C35'], 'C01-revert-fix-57ad034a': ['C10'],
+    'seeded/C11-adv3': ['C23'], 'seeded/C25-adv4': ['C23'],
+    'C16-revert-fix-dd140cab': ['C13', 'C01'], 'C16-revert-fix-d554c71b': ['C01'], 'C16-revert-fix-4ee0a012': ['C15'],
+    'C12-revert-fix-384cefb8': ['C10'], 'C12-revert-fix-44fbce60': ['C10'], 'C15-revert-fix-7353c936': ['C01', 'C13'],
+    'C21-revert-fix-d2835d9d': ['C01'], 'C35-revert-fix-19f04add': ['C36'], 'C01-revert-fix-8b2bac9f': ['C36'],
+    'C10-revert-fix-51ef9ebc': ['C11'], 'C40-revert-fix-634b08a5': ['C01', 'C24'],
 }
 
 
